@@ -1,2 +1,2 @@
--- Root of the model library; property modules are built individually by ./check.
-import CweModel.C19.Props
+-- Root of the model library; property modules are built individually by ./check and setup.sh.
+import CweModel.Base.Proto
